@@ -22,7 +22,9 @@ RULE = (
     "before any state change/publication, coroutine ones as tasks afterwards; veto => no change, no publication, no Change; "
     "otherwise the value is taken, exactly one update carrying it iff the vector is enabled, Change exactly once iff old != new "
     "with (old, new); direct assignment identical minus Write; a refreshing plain Read handler's value is what a read returns and "
-    "what an update carries; handlers of other elements / other instances are never invoked. Non-trivial: >= 1 handler and both a "
+    "what an update carries; handlers of other elements / other instances are never invoked. 'nested': a handler of E0 forwards a "
+    "value to E1 with set_value(); the contract (plain Write handlers before the state change, veto, update, Change) holds for that "
+    "write made from inside a handler. Non-trivial: >= 1 handler and both a "
     "changing and an unchanged write in the sequence; distinct = canonical JSON."
 )
 ASSUMPTIONS = [
@@ -361,6 +363,130 @@ def check_contract(case):
         rig.close()
 
 
+def check_nested(case):
+    """A handler of element E0 forwards a value to element E1 with set_value() - a write made from inside a handler is a
+    write like any other: E1's plain Write handlers run before E1 changes and may veto, then the update, then Change.
+    case: {"kind": "Text"|"Number", "fwd_ev": "Write"|"Change", "veto": bool, "coro_too": bool, "via": "client"|"set_value"|"assign"}"""
+    from indi import message as M
+    from indi.device import Driver, properties
+    from indi.device.events import Change, Write, on
+    from indi.message import one_parts
+    from indi.routing import Client, Router
+
+    kind = case["kind"]
+    v0, v1 = (("a", "b") if kind == "Text" else (1.0, 2.5))
+    wire0 = {"Text": "a", "Number": "1"}[kind]
+    loop = net.new_loop()
+    try:
+        router = Router()
+        published, trace = [], []
+
+        class Rec(Client):
+            def message_from_device(self, message):
+                published.append(message)
+
+        router.register_client(Rec())
+        ecls, vcls = getattr(properties, kind), getattr(properties, kind + "Vector")
+        group = properties.Group("G", vectors={"v": vcls("V", elements={"e0": ecls("E0"), "e1": ecls("E1")})})
+        e0d, e1d = group.vectors["v"].elements["e0"], group.vectors["v"].elements["e1"]
+        main = {"task": None}
+
+        def e1_pubs():
+            return sum(1 for m in published if any(c.name == "E1" and norm(kind, _parse(kind, c.value)) == norm(kind, v1) for c in m.children))
+
+        def forward(self_drv, event):
+            trace.append(("forward", event.__class__.__name__))
+            self_drv.g.v.e1.set_value(v1)
+
+        def w1(self_drv, event):
+            trace.append(("write1", event.new_value, self_drv.g.v.e1._value, e1_pubs(), asyncio.current_task() is not main["task"]))
+            if case["veto"]:
+                event.prevent_default = True
+
+        async def w1c(self_drv, event):
+            trace.append(("write1-coro", event.new_value, asyncio.current_task() is not main["task"]))
+
+        def c1(self_drv, event):
+            trace.append(("change1", event.old_value, event.new_value))
+
+        dct = {"g": group, "forward": on(e0d, Write if case["fwd_ev"] == "Write" else Change)(forward), "w1": on(e1d, Write)(w1), "c1": on(e1d, Change)(c1)}
+        if case.get("coro_too"):
+            dct["w1c"] = on(e1d, Write)(w1c)
+        drv = type("C14Nested", (Driver,), dct)(name="DEV", router=router)
+        old1 = drv.g.v.e1._value
+
+        async def go():
+            main["task"] = asyncio.current_task()
+            if case["via"] == "client":
+                part = getattr(one_parts, f"One{kind}")(name="E0", value=wire0)
+                router.process_message(getattr(M, f"New{kind}Vector")(device="DEV", name="V", children=(part,)), sender=None)
+            elif case["via"] == "set_value":
+                drv.g.v.e0.set_value(v0)
+            else:
+                drv.g.v.e0.value = v0
+
+        where = f"{case}"
+        try:
+            loop.run_until_complete(go())
+            loop.drain()
+        except Exception as exc:  # noqa
+            f = lib_exception_failure(exc, "nested-write-raises")
+            raise Failure(f.sig, f"{where}: {f.msg}")
+        for ctx in loop._unhandled:
+            raise Failure("handler-task-exception", f"{where}: {ctx.get('exception')!r}")
+        forwarded = [t for t in trace if t[0] == "forward"]
+        expect_forward = 1 if (case["fwd_ev"] == "Change" or case["via"] != "assign") else 0  # plain assignment raises no Write
+        if len(forwarded) != expect_forward:
+            raise Failure("nested:forwarder-count", f"{where}: forwarder ran {len(forwarded)} times, expected {expect_forward}: {trace}")
+        if not expect_forward:
+            return Info(nontrivial=False, labels=["no-forward"])
+        w = [t for t in trace if t[0] == "write1"]
+        if len(w) != 1:
+            raise Failure("nested:write-handler-count", f"{where}: E1's plain Write handler ran {len(w)} times: {trace}")
+        _, new, value_then, pubs_then, in_task = w[0]
+        if norm(kind, new) != norm(kind, v1) or in_task:
+            raise Failure("nested:write-handler-payload", f"{where}: {w[0]}")
+        if norm(kind, value_then) != norm(kind, old1) or pubs_then:
+            raise Failure("nested:write-handler-after-state-change", f"{where}: E1's Write handler saw value {value_then!r} (old {old1!r}) and {pubs_then} updates already carrying the new value")
+        if case.get("coro_too"):
+            wc = [t for t in trace if t[0] == "write1-coro"]
+            if len(wc) != 1 or not wc[0][2]:
+                raise Failure("nested:coroutine-write-handler", f"{where}: {wc}")
+        changes = [t for t in trace if t[0] == "change1"]
+        if case["veto"]:
+            if norm(kind, drv.g.v.e1._value) != norm(kind, old1) or e1_pubs() or changes:
+                raise Failure("nested:veto-ignored", f"{where}: E1={drv.g.v.e1._value!r}, updates carrying it: {e1_pubs()}, Change: {changes}")
+        else:
+            if norm(kind, drv.g.v.e1._value) != norm(kind, v1):
+                raise Failure("nested:value-not-taken", f"{where}: E1={drv.g.v.e1._value!r}")
+            if len(changes) != 1 or norm(kind, changes[0][1]) != norm(kind, old1) or norm(kind, changes[0][2]) != norm(kind, v1):
+                raise Failure("nested:change-handler", f"{where}: {changes}")
+            if not e1_pubs():
+                raise Failure("nested:not-published", where)
+        if norm(kind, drv.g.v.e0._value) != norm(kind, v0):
+            raise Failure("nested:outer-write-lost", f"{where}: E0={drv.g.v.e0._value!r}")
+        return Info(nontrivial=True, labels=[kind, case["fwd_ev"], "veto" if case["veto"] else "no-veto", case["via"]])
+    finally:
+        loop.shutdown()
+
+
+def _parse(kind, text):
+    if kind == "Number" and text is not None:
+        from harness import refnum
+
+        return refnum.parse(str(text))
+    return text
+
+
+def nested_cases():
+    for kind in ("Text", "Number"):
+        for fwd in ("Write", "Change"):
+            for veto in (False, True):
+                for coro in (False, True):
+                    for via in ("client", "set_value", "assign"):
+                        yield {"kind": kind, "fwd_ev": fwd, "veto": veto, "coro_too": coro, "via": via}
+
+
 handler_st = st.fixed_dictionaries(
     {
         "ev": st.sampled_from(["Write", "Write", "Change", "Change", "Read"]),
@@ -390,9 +516,11 @@ def case_st(instances):
     )
 
 
-SUBCHECKS = {"contract": check_contract, "two-instances": check_contract}
+SUBCHECKS = {"contract": check_contract, "two-instances": check_contract, "nested": check_nested}
 
 
 def run(ctx):
     ctx.hyp("contract", case_st(st.just(1)), check_contract, ctx.scale(800, 10000))
     ctx.hyp("two-instances", case_st(st.just(2)), check_contract, ctx.scale(400, 4000))
+    n = ctx.each("nested", nested_cases(), check_nested, stop_after=3)
+    ctx.exhaustive["nested"] = {"complete": True, "n_cases": n, "bound": "2 kinds x forwarding handler on {Write, Change} of E0 x veto on E1 or not x with/without a coroutine Write handler on E1 x outer write via {client message, set_value, assignment}"}
